@@ -1,4 +1,5 @@
 mod core;
+mod e2;
 mod gast;
 mod hosts;
 mod lit;
